@@ -1,12 +1,12 @@
 """C14 plan (see lib/plan.py for the format)."""
-from plan import R, D, M, stages
+from plan import R, D, M, T, stages
 import fuzzstage
 
 PLAN = dict(
     extra={"thorough": [fuzzstage.diff_stage(4, "C14")]},
     **stages(
-        quick=[(R, "quick", 16), (D, "small", 16)],
-        thorough=[(R, "thorough", 16), (D, "quick", 16), (M, "mini", 8)],
+        quick=[(R, "quick", 16), (D, "small", 16), (T, "small", 16)],
+        thorough=[(R, "thorough", 16), (D, "quick", 16), (T, "quick", 16), (M, "mini", 8)],
     ),
     rule=("cases are (a) single lines enumerating, round-robin, every cell of the table "
           "{16 file-name classes} + {18 command words x 10 argument classes} + {27 unknown '@' words x 3}, "
